@@ -402,9 +402,9 @@ theorem session_is_last_successful_bind (c : Conn) (msgs : List (World × Msg)) 
 session; an unbound search binds anonymously by itself. -/
 example : (runConn Conn.start
       [(exWorld 60 true, .bind "alice".toList 42 false), (exWorld 60 true, .bind "alice".toList 1 false),
-       (exWorld 60 true, .search "dc=example,dc=com".toList .subtree 0)]).2
+       (exWorld 60 true, .search "dc=example,dc=com".toList .subtree 0 none)]).2
     = [.bound ⟨10, .unixBind 10⟩, .respond .invalidCredentials none, .query ⟨0, .readOnly⟩ 0 none] ∧
-    (runConn Conn.start [(exWorld 60 true, .search "dc=example,dc=com".toList .subtree 0)])
+    (runConn Conn.start [(exWorld 60 true, .search "dc=example,dc=com".toList .subtree 0 none)])
     = (⟨some ⟨0, .unixBind 0⟩, false⟩, [.query ⟨0, .readOnly⟩ 0 (some ⟨0, .unixBind 0⟩)]) := by decide
 
 /-- A bind that does not succeed leaves the session as it was. -/
@@ -434,14 +434,14 @@ theorem query_identity_from_session (c : Conn) (w : World) (m : Msg) (id : Ident
       (cases hr : (doBind w dn pw sl).res with
        | error e => simp [hr, errRespond] at h
        | ok ot => cases ot <;> simp [hr] at h)
-  | search base sc n =>
+  | search base sc n late =>
     simp only [Msg.wireOp, wireDispatch, wireDispatchesToDoOp, if_true, doOp] at h
     cases hs : c.session with
     | some t =>
       left
       refine ⟨t, rfl, ?_⟩
       simp only [hs, Option.isSome_some, doOpCalls, boundUsesSessionToken, if_true] at h
-      have := doSearch_query (w := w) (t := t) (imp := none) (base := base) (sc := sc) (n := n) rfl
+      have := doSearch_query (w := w) (t := t) (imp := none) (base := base) (sc := sc) (n := n) (late := late) rfl
       rcases h with ⟨ext, imp, h⟩ | ⟨imp, h⟩
       · exact this.1 id ext imp (by simpa using h)
       · exact absurd (by simpa using h) (this.2 id imp)
@@ -456,20 +456,20 @@ theorem query_identity_from_session (c : Conn) (w : World) (m : Msg) (id : Ident
         | none => simp [hr] at h
         | some lbt =>
           have hl := implicit_bind_session hr
-          have := doSearch_query (w := w) (t := lbt) (imp := some lbt) (base := base) (sc := sc) (n := n) rfl
+          have := doSearch_query (w := w) (t := lbt) (imp := some lbt) (base := base) (sc := sc) (n := n) (late := late) rfl
           rw [hl] at this
           simp only [hr] at h
           rcases h with ⟨ext, imp, h⟩ | ⟨imp, h⟩
           · exact this.1 id ext imp (by simpa using h)
           · exact absurd (by simpa using h) (this.2 id imp)
-  | compare entry =>
+  | compare entry late =>
     simp only [Msg.wireOp, wireDispatch, wireDispatchesToDoOp, if_true, doOp] at h
     cases hs : c.session with
     | some t =>
       left
       refine ⟨t, rfl, ?_⟩
       simp only [hs, Option.isSome_some, doOpCalls, boundUsesSessionToken, if_true] at h
-      have := doCompare_query (w := w) (t := t) (imp := none) (entry := entry) rfl
+      have := doCompare_query (w := w) (t := t) (imp := none) (entry := entry) (late := late) rfl
       rcases h with ⟨ext, imp, h⟩ | ⟨imp, h⟩
       · exact absurd (by simpa using h) (this.2 id ext imp)
       · exact this.1 id imp (by simpa using h)
@@ -484,7 +484,7 @@ theorem query_identity_from_session (c : Conn) (w : World) (m : Msg) (id : Ident
         | none => simp [hr] at h
         | some lbt =>
           have hl := implicit_bind_session hr
-          have := doCompare_query (w := w) (t := lbt) (imp := some lbt) (entry := entry) rfl
+          have := doCompare_query (w := w) (t := lbt) (imp := some lbt) (entry := entry) (late := late) rfl
           rw [hl] at this
           simp only [hr] at h
           rcases h with ⟨ext, imp, h⟩ | ⟨imp, h⟩
